@@ -28,6 +28,8 @@ class Renderer(object):
         k = n[0]
         if k == 'bool':
             return 'true' if n[1] else 'false'
+        if k == 'bin':
+            return 'Bin(%s)' % n[1]       # the filter grammar spells a Bin literal the 2.0 way
         if k == 'dt':
             # filter grammar: ISO stamp then an optional zone name
             return self.w.datetime(n)
